@@ -43,6 +43,9 @@ pub struct State<'tera> {
     pub(crate) current_block_name: Option<&'tera str>,
     /// Reference to registered filters for calling filters from within filters (e.g., map filter)
     pub(crate) filters: Option<&'tera HashMap<Cow<'static, str>, StoredFilter>>,
+    /// How many nested blocks/`super()`/includes/components we are in, to error instead of
+    /// overflowing the stack
+    pub(crate) render_depth: usize,
 }
 
 impl<'t> State<'t> {
@@ -70,6 +73,7 @@ impl<'t> State<'t> {
             blocks: Vec::new(),
             current_block_name: None,
             filters: None,
+            render_depth: 0,
         }
     }
 
